@@ -4,7 +4,7 @@ from lib import common as C
 from refcrypto import ed25519_ref as ED          # independent RFC 8032 arithmetic (no nacl, no pycardano)
 
 PID = 'C16'
-TARGETS = ['props/C16.vo', 'theories/Bip32Oracle.vo']
+TARGETS = ['props/C16.vo', 'theories/Bip32Oracle.vo', 'theories/Bip32Toy.vo']
 LEVEL = 'proof'
 
 MANIFEST = dict(
@@ -515,7 +515,7 @@ def evaluate(cases, results, shard=None):
         else:
             good.append((i, c, r))
     shards, maps = [], []
-    shard = shard or max(6, -(-len(good) // 15))
+    shard = shard or min(40, max(6, -(-len(good) // 15)))
     for k in range(0, len(good), shard):
         part = good[k:k + shard]
         shards.append(render([(c, r) for _, c, r in part]))
@@ -552,7 +552,7 @@ def strip(case):
 
 
 def correspond(ctx, sizes=None):
-    nw, npth, nraw = sizes or (ctx.n(40, 1500), ctx.n(6, 20), ctx.n(16, 600))
+    nw, npth, nraw = sizes or (ctx.n(40, 600), ctx.n(6, 16), ctx.n(16, 200))
     assert ED._selftest()
     t0 = time.time()
     cases = gen_cases(ctx, nw, npth, nraw)
